@@ -112,27 +112,52 @@ def relion_df_from_rin(rin, innames, v, px, rng, with_px_column):
     return pd.DataFrame(data, columns=order)
 
 
+def whole_as_int(df, rng, mode):
+    """RELION tables whose angle / coordinate / origin columns hold whole numbers are often INTEGER-typed (template-matching
+    grids; STAR files printing 30 instead of 30.000000).  mode: 0 as built; 1 all three angle columns; 2 one angle column;
+    3 coordinates and origins; 4 every such column."""
+    if mode == 0:
+        return df
+    ang = ["rlnAngleRot", "rlnAngleTilt", "rlnAnglePsi"]
+    pos = [c for c in df.columns if c.startswith("rlnCoordinate") or c.startswith("rlnOrigin")]
+    cols = {1: ang, 2: [ang[rng.randrange(3)]], 3: pos, 4: ang + pos}[mode]
+    out = df.copy()
+    for c in cols:
+        if c in out.columns:
+            vals = out[c].to_numpy(dtype=float)
+            if len(vals) and np.all(vals == np.rint(vals)):
+                out[c] = vals.astype("int64")
+    return out
+
+
 def independent_relion_file(path, df, v, px, rng, optics, groups=None):
-    """groups: {optics group id: pixel size} - a merged list with several optics groups (rows carry rlnOpticsGroup)."""
+    """groups: {optics group id: pixel size} - a merged list with several optics groups (rows carry rlnOpticsGroup).
+    The order of the blocks is free: optics before or after the particles, unrelated blocks before / between / after."""
+    blocks = []
+    if groups and v >= 31:
+        ids = list(groups)
+        if rng.random() < 0.5:
+            ids.reverse()
+        blocks.append("data_optics\n\nloop_\n_rlnOpticsGroup #1\n_rlnOpticsGroupName #2\n_rlnImagePixelSize #3\n"
+                      + "".join("%d opticsGroup%d %r\n" % (gid, gid, groups[gid]) for gid in ids))
+    elif optics and v >= 31:
+        blocks.append("data_optics\n\nloop_\n_rlnOpticsGroup #1\n_rlnOpticsGroupName #2\n_rlnImagePixelSize #3\n1 opticsGroup1 %r\n" % px)
+    part = "%s\n\nloop_\n" % ("data_particles" if v >= 31 else "data_")
+    part += "".join("_%s #%d\n" % (c, k) for k, c in enumerate(df.columns, 1))
+    for row in df.itertuples(index=False):
+        part += " " + rng.choice(["  ", "\t", " "]).join(x if isinstance(x, str) else repr(x) for x in row) + "\n"
+    blocks.append(part)
+    if len(blocks) == 2 and rng.random() < 0.5:
+        blocks.reverse()                                   # optics AFTER the particles
+    if rng.random() < 0.4:
+        # unrelated blocks (their names are neither data_, data_particles nor data_optics)
+        for k in range(rng.randint(1, 2)):
+            extra = "data_general%s\n\nloop_\n_rlnSomeFlag #1\n_rlnSomeText #2\n%d abc\n" % ("" if k == 0 else "_b", 7 + k)
+            blocks.insert(rng.randint(0, len(blocks)), extra)
     with open(path, "w") as fh:
         fh.write("# RELION input written by the C03 driver\n")
-        if groups and v >= 31:
-            fh.write("\ndata_optics\n\nloop_\n_rlnOpticsGroup #1\n_rlnOpticsGroupName #2\n_rlnImagePixelSize #3\n")
-            ids = list(groups)
-            if rng.random() < 0.5:
-                ids.reverse()
-            for gid in ids:
-                fh.write("%d opticsGroup%d %r\n" % (gid, gid, groups[gid]))
-            fh.write("\n")
-        elif optics and v >= 31:
-            fh.write("\ndata_optics\n\nloop_\n_rlnOpticsGroup #1\n_rlnOpticsGroupName #2\n_rlnImagePixelSize #3\n")
-            fh.write("1 opticsGroup1 %r\n\n" % px)
-        fh.write("\n%s\n\nloop_\n" % ("data_particles" if v >= 31 else "data_"))
-        for k, c in enumerate(df.columns, 1):
-            fh.write("_%s #%d\n" % (c, k))
-        for row in df.itertuples(index=False):
-            fh.write(" " + rng.choice(["  ", "\t", " "]).join(x if isinstance(x, str) else repr(x) for x in row) + "\n")
-        fh.write("\n")
+        for blk in blocks:
+            fh.write("\n" + blk + "\n")
 
 
 # ---- projection --------------------------------------------------------------------------------------
@@ -441,12 +466,13 @@ class Runner:
             self.mixed_px_case(case, cs, v, rng, variant, sig)
         elif op == "import":
             with_px = variant % 2 == 0
-            rdf = relion_df_from_rin(cs["rin"], case["innames"], v, px, rng, with_px)
+            rdf = whole_as_int(relion_df_from_rin(cs["rin"], case["innames"], v, px, rng, with_px), rng, (variant // 3) % 5)
             if variant % 4 == 3:
-                # through a file written by the driver's own RELION writer
+                # through a file written by the driver's own RELION writer (free block order, whole numbers without decimals);
+                # the version is detected from the file in two of the three call forms
                 path = os.path.join(ctx.workdir, "rin_%d.star" % os.getpid())
                 independent_relion_file(path, rdf, v, px, rng, optics=not with_px)
-                back, err = core.call_guarded(api_load, path, v, px, 1 if v == 30 or with_px else variant // 4)
+                back, err = core.call_guarded(api_load, path, v, px, variant // 4 if v == 30 or with_px else 2 * ((variant // 4) % 2))
             else:
                 # the SAME table object is imported one to three times through different entry points; every import is
                 # judged against the original values and the earlier results must stay valid (the caller's table is input only)
@@ -816,11 +842,14 @@ def gen_float_case(rng, idx, n):
         sids = [base + s_ for s_ in sids]
     tomos = sorted(rng.sample(range(1, 90), rng.randint(1, 5)))
     parts, rin = [], []
+    grid = rng.random() < 0.3          # RELION angles on a template-matching grid: whole numbers, handed over INTEGER-typed
     for i in range(n):
         parts.append({"pos": [round(rng.uniform(-200, 2000), rng.randint(0, 4)) for _ in range(3)],
                       "shift": [rng.uniform(-8, 8) if rng.random() < 0.8 else 0.0 for _ in range(3)],
                       "ang": rand_angles(rng), "tomo": rng.choice(tomos), "sid": sids[i], "cls": rng.randint(1, 9)})
         a = rand_angles(rng)
+        if grid:
+            a = [float(rng.randrange(-36, 37) * 10), float(rng.choice([0, 30, 60, 90, 120, 150, 180, 35, 5])), float(rng.randrange(-72, 73) * 5)]
         rin.append({"coord": [round(rng.uniform(-200, 2000), 3) for _ in range(3)],
                     "origin": [round(rng.uniform(-30, 30), 4) for _ in range(3)], "ang": [a[0], a[1], a[2]],
                     "tomo": rng.choice(tomos), "sid": sids[i], "subset": 1 if sids[i] % 2 == 1 else 2, "cls": rng.randint(1, 9)})
@@ -898,7 +927,9 @@ def run_float(ctx, cases, name="resid"):
                 "rlnClassNumber": [r["cls"] for r in rin]}
         for k, cn in enumerate(origin_names(v)):
             data[cn] = [r["origin"][k] for r in rin]
-        imp, err = core.call_guarded(api_import, motlutil.vary_index(pd.DataFrame(data), variant // 3), v, px, variant // 2)
+        imp, err = core.call_guarded(api_import, motlutil.vary_index(whole_as_int(pd.DataFrame(data), _random.Random(case["id"]),
+                                                                                     (case["id"] % 3) + 1 if variant % 2 else 0),
+                                                                        variant // 3), v, px, variant // 2)
         if err is not None:
             ctx.fail("call_raises", "import: %s" % err, case, dict(sig, op="import"))
             continue
